@@ -41,6 +41,7 @@ import (
 	"syscall"
 	"time"
 
+	"verifharness/dmg"
 	"verifharness/macho"
 	"verifharness/magic"
 	"verifharness/pe"
@@ -674,6 +675,12 @@ func opFunc(fields []string) (func() string, int) {
 			n = len(fields[2]) / 2
 		}
 		return func() string { return macho.Handle(fields[1:]) }, n
+	case "DMG":
+		n := 0
+		if len(fields) > 2 {
+			n = len(fields[2]) / 2
+		}
+		return func() string { return dmg.Handle(fields[1:]) }, n
 	case "PGP":
 		return func() string { return pgp.Handle(fields[1:]) }, pgp.InputLen(fields[1:])
 	case "MAGIC":
